@@ -63,6 +63,7 @@ type dRun struct {
 	stallFor  time.Duration
 	gap       int
 	fatalWait bool
+	fatalFilt int // 0: the Fatal event is enabled; 1: logger level Disabled; 2: global level Disabled
 	skipIdle  bool
 
 	tick       int
@@ -292,7 +293,17 @@ func (r *dRun) producer(p int, lg zerolog.Logger, fatal bool) func() {
 			m := r.newMsg(p, r.nWrites)
 			r.fatalMsg = m
 			r.pending[zsim.CurID()] = m
-			lg.Fatal().Str("m", m.id).Msg("fatal")
+			flg := lg
+			switch r.fatalFilt {
+			case 1:
+				// a filtered Fatal writes nothing but still closes the writer and exits
+				flg = lg.Level(zerolog.Disabled)
+				zsim.Probe("fatal_filtered")
+			case 2:
+				zerolog.SetGlobalLevel(zerolog.Disabled)
+				zsim.Probe("fatal_filtered")
+			}
+			flg.Fatal().Str("m", m.id).Msg("fatal")
 			zsim.Fail("harness", "Fatal().Msg returned")
 		}
 	}
@@ -342,6 +353,7 @@ func (r *dRun) config() {
 	r.stallFor = []time.Duration{50 * time.Millisecond, time.Second}[c.Intn(2)]
 	r.gap = c.Weighted(5, 3, 2)
 	r.fatalWait = c.Weighted(1, 2) == 1
+	r.fatalFilt = c.Weighted(4, 1, 1)
 	r.skipIdle = r.prop != "C12" && c.Chance(1, 2)
 	if r.scenario == scFatal {
 		r.viaLogger = true
@@ -362,9 +374,11 @@ func (diodeWorld) Run(prop string, ch *zsim.Choices, trace bool) *RunResult {
 	stdlog.SetFlags(0)
 	stdlog.SetOutput(collisionCounter{r})
 	defer stdlog.SetOutput(os.Stderr)
+	defer zerolog.SetGlobalLevel(zerolog.TraceLevel)
 	var s *zsim.Sim
 	main := func() {
 		s = zsim.S
+		zerolog.SetGlobalLevel(zerolog.TraceLevel)
 		r.config()
 		s.ArmDraw([]string{"diode/"})
 		zsim.Log("config: %s", r.summary())
@@ -504,15 +518,20 @@ func (r *dRun) post(s *zsim.Sim) *zsim.Violation {
 				return viol("C11.drop_below_capacity", "never more than %d outstanding with ring %d, yet alerts=%d missing=%v", r.maxOut, r.ring, r.alertSum, ids)
 			}
 		case scFatal:
-			if !s.Exited || r.fatalMsg == nil || r.closeInv == 0 {
+			if !s.Exited || r.fatalMsg == nil {
 				return nil
 			}
-			// premise: no other Write overlaps the Close..Exit window
+			// premise: no other Write overlaps the Close..Exit window (when the writer
+			// was not closed at all, every Write must have returned before the exit)
+			cut := r.closeInv
+			if cut == 0 {
+				cut = r.tick + 1
+			}
 			for _, m := range r.msgs {
 				if m == r.fatalMsg || m.inv < 0 {
 					continue
 				}
-				if m.ret < 0 || m.ret > r.closeInv {
+				if m.ret < 0 || m.ret > cut {
 					zsimProbePost(s, "fatal_premise_false")
 					return nil
 				}
@@ -526,7 +545,7 @@ func (r *dRun) post(s *zsim.Sim) *zsim.Violation {
 				}
 			}
 			if miss > r.alertSum {
-				return viol("C11.fatal_loss", "process exited through Fatal with %d message(s) %v neither delivered nor reported (alerts=%d)", miss, ids, r.alertSum)
+				return viol("C11.fatal_loss", "process exited through Fatal (event filtered: %v, writer closed: %v) with %d message(s) %v neither delivered nor reported (alerts=%d)", r.fatalFilt != 0, r.closeInv != 0, miss, ids, r.alertSum)
 			}
 		}
 	}
